@@ -54,7 +54,7 @@ const char *XMLS[] = {
 const int NXML = sizeof XMLS / sizeof *XMLS;
 
 const int CPU_ALLFLAGS = 0xf, MEM_ALLFLAGS = 0x3f;
-const unsigned NSETCLS = 11;
+const unsigned NSETCLS = 12;
 // classes: 0 subset, 1 empty, 2 outside, 3 infinite, 4 superset, 5 exact, 6 single, 7 complete, 8 mixed (with disallowed PUs), 9 subset of allowed&online, 10 full
 
 // ---------------------------------------------------------------- set helpers
@@ -332,7 +332,12 @@ struct BindMachine : Machine {
       case 7: o.s = U; break;
       case 8: o.s = subset(U, true); { Set e = minus(U, T); if (!e.empty()) o.s.insert(nth(e, g.next())); } break;
       case 9: { Set base = node ? inter(K.nodes, T) : inter(A(), T); if (base.empty()) base = T; o.s = subset(base, true); break; }
-      default: o.infinite = true; o.inf_from = 0; break;
+      case 10: o.infinite = true; o.inf_from = 0; break;
+      default: {   // what hwloc itself reports as allowed (narrower than the topology under INCLUDE_DISALLOWED): a legal set that does not cover the topology
+        hwloc_const_bitmap_t al = node ? hwloc_topology_get_allowed_nodeset(R.t) : hwloc_topology_get_allowed_cpuset(R.t);
+        for (int x = hwloc_bitmap_first(al); x >= 0; x = hwloc_bitmap_next(al, x)) o.s.insert((unsigned)x);
+        if (g.chance(1, 3)) { Set e = subset(minus(T, o.s), false); if (e != minus(T, o.s)) o.s.insert(e.begin(), e.end()); }   // ... or a proper superset of it inside the topology
+        break; }
     }
     o.bm = hwloc_bitmap_alloc();
     for (unsigned x : o.s) hwloc_bitmap_set(o.bm, x);
